@@ -70,7 +70,7 @@ func vrfKnownC04(mode int, r *Recipient) {
 		vrf.Known("C04-dot-name", dotty)
 	}
 	if mode != 1 {
-		vrf.Known("C04-domain-case", vrfHasUpper(r.Domain))
+		vrf.Known("C04-domain-case", vrfHasUpper(r.Domain) && strings.HasPrefix(r.Domain, "["))
 	}
 }
 
@@ -119,7 +119,7 @@ func VerifC04Case(mode int, n int) {
 	}
 	vrf.Cover("both-accepted")
 	if mode != 1 {
-		vrf.Known("C04-domain-case", r1.Domain != r2.Domain)
+		vrf.Known("C04-domain-case", r1.Domain != r2.Domain && strings.HasPrefix(r1.Domain, "["))
 	}
 	vrf.Assert("case-same-mailbox", r1.Mailbox == r2.Mailbox)
 }
